@@ -186,6 +186,13 @@ def run(ctx: C.Ctx):
 
 def _run(ctx: C.Ctx):
     rng = ctx.rng
+    # user-supplied bases with non-orthonormal modes (every sensor count from n_modes up to ALL locations is judged)
+    for idx in range(ctx.scale(15, 150)):
+        fm = recon.gen_custom_model(ctx, rng)
+        if fm is None:
+            continue
+        ctx.count("custom_non_orthonormal_basis")
+        check(ctx, fm, 3 * 10 ** 6 + idx)
     for idx in range(ctx.scale(100, 1500)):
         fm = recon.gen_model(ctx, rng, want_tall=rng.random() < 0.8)
         if fm is None:
